@@ -1,10 +1,212 @@
+import PdshVerif.Base.Hex
+import PdshVerif.Mod.Load
+import PdshVerif.Mod.Spec
 import Driver.Util
 
-/-! engine stub: filled in by the owner of this engine (see FRAMEWORK.md) -/
-namespace Driver.ModDrv
+/-!
+  engine `mod` (property C17)
 
-def main (_args : List String) : IO UInt32 := do
-  IO.eprintln "engine not implemented"
-  return 2
+  one case per line, `key=value` tokens:
+    pers=1|2 uid=N euid=N owner=N|~ misc=HEX|~ env=DIR|~ builtin=DIR use=CODE,CODE,...
+    DIR   := PATH@FILES        PATH := STAT,STAT,...  (dir, dir/.., ..., "/")      STAT := uid:mode | !
+    FILES := FILE;FILE;...     FILE := NAMEHEX,STAT,OBJ
+    OBJ   := x (dlopen fails) | n (no pdsh_module_info) | m/TYPE/NAME/PRIO/PERS/INIT/OPTS
+             TYPE,NAME := HEX | ~ (NULL)   INIT := ~ | 0 (fails) | 1   OPTS := ~ (NULL) | e (empty) | ROW+ROW..
+             ROW := CODE.HASARG.PERS
+  `pdshmodel mod model [persfirst]`:  (persfirst = the repaired form of F17-PERS: _mod_register looks at the
+       personality BEFORE it touches an existing module of the same type and name; for the model this is the
+       same as an object without type, so the driver rewrites such descriptors and runs the same model)
+       ok|fatal L=FILE:ACT,... C=FILE,... O=HEX D=FILE,... U=CODE:i|n|hFILE.ARG,...
+  `pdshmodel mod spec` :  the case line additionally carries the observation
+       obs=ok|fatal oL=FILE:ACT,... oC=FILE,... oD=FILE,... oU=CODE:i|n|hFILE.ARG,...
+     answer: `ok` or `viol CLASS:DETAILHEX ...`
+-/
+namespace Driver.ModDrv
+open PdshVerif PdshVerif.Mod
+
+def hx (s : List Char) : String := Hex.encodeChars s
+
+def splitNE (s : String) (sep : String) : List String := if s = "" then [] else s.splitOn sep
+
+def parseStat (s : String) : Option (Option FStat) :=
+  if s = "!" then some none
+  else match s.splitOn ":" with
+    | [u, m] => do
+      let u ← u.toNat?
+      let m ← m.toNat?
+      pure (some ⟨u, m⟩)
+    | _ => none
+
+def parseOptStr (s : String) : Option (Option (List Char)) :=
+  if s = "~" then some none else (Hex.decodeToChars s).map some
+
+def parseRow (s : String) : Option OptRow :=
+  match s.splitOn "." with
+  | [c, a, p] => do
+    let c ← c.toNat?
+    let p ← p.toNat?
+    pure ⟨Char.ofNat c, a = "1", p⟩
+  | _ => none
+
+def parseRows (s : String) : Option (Option (List OptRow)) :=
+  if s = "~" then some none
+  else if s = "e" then some (some [])
+  else ((s.splitOn "+").mapM parseRow).map some
+
+def parseObj (s : String) : Option Obj :=
+  if s = "x" then some .noload
+  else if s = "n" then some .noinfo
+  else match s.splitOn "/" with
+    | ["m", t, n, prio, pers, ini, opts] => do
+      let t ← parseOptStr t
+      let n ← parseOptStr n
+      let prio ← prio.toInt?
+      let pers ← pers.toNat?
+      let ini : Option Bool ← (if ini = "~" then some none else if ini = "1" then some (some true)
+                                else if ini = "0" then some (some false) else none)
+      let opts ← parseRows opts
+      pure (.mod ⟨t, n, prio, pers, opts, ini⟩)
+    | _ => none
+
+def parseFile (s : String) : Option File :=
+  match s.splitOn "," with
+  | [nm, st, obj] => do
+    let nm ← Hex.decodeToChars nm
+    let st ← parseStat st
+    let obj ← parseObj obj
+    pure ⟨nm, st, obj⟩
+  | _ => none
+
+def parseDir (s : String) : Option Dir :=
+  match s.splitOn "@" with
+  | [p, f] => do
+    let p ← (splitNE p ",").mapM parseStat
+    let f ← (splitNE f ";").mapM parseFile
+    pure ⟨p, f⟩
+  | _ => none
+
+def parseFiles (s : String) : Option (List (List Char)) := (splitNE s ",").mapM Hex.decodeToChars
+
+def parseListed (s : String) : Option (List (List Char × Bool)) :=
+  (splitNE s ",").mapM fun x =>
+    match x.splitOn ":" with
+    | [f, a] => (Hex.decodeToChars f).map fun f => (f, a = "1")
+    | _ => none
+
+def parseUse (s : String) : Option (Char × OptUse) :=
+  match s.splitOn ":" with
+  | [c, u] => do
+    let c ← c.toNat?
+    if u = "i" then pure (Char.ofNat c, .invalid)
+    else if u = "n" then pure (Char.ofNat c, .nohandler)
+    else if u.startsWith "h" then
+      match (u.drop 1).toString.splitOn "." with
+      | [f, a] => do
+        let f ← Hex.decodeToChars f
+        pure (Char.ofNat c, .handled f (a = "1"))
+      | _ => none
+    else none
+  | _ => none
+
+structure Case where
+  env : Env
+  use : List Char
+  obs : Spec.Obs
+
+def emptyCase : Case :=
+  ⟨⟨0, 0, none, ⟨[], []⟩, none, 1, none⟩, [], ⟨false, [], [], [], []⟩⟩
+
+def kv (tok : String) : Option (String × String) :=
+  match tok.splitOn "=" with
+  | [k, v] => some (k, v)
+  | _ => none
+
+def parseCase : List String → Case → Option Case
+  | [], c => some c
+  | tok :: rest, c => do
+    let (k, v) ← kv tok
+    let c' : Case ←
+      (if k = "pers" then v.toNat?.map fun n => { c with env := { c.env with pers := n } }
+       else if k = "uid" then v.toNat?.map fun n => { c with env := { c.env with uid := n } }
+       else if k = "euid" then v.toNat?.map fun n => { c with env := { c.env with euid := n } }
+       else if k = "owner" then
+         (if v = "~" then some { c with env := { c.env with owner := none } }
+          else v.toNat?.map fun n => { c with env := { c.env with owner := some n } })
+       else if k = "misc" then (parseOptStr v).map fun m => { c with env := { c.env with misc := m } }
+       else if k = "env" then
+         (if v = "~" then some { c with env := { c.env with envDir := none } }
+          else (parseDir v).map fun d => { c with env := { c.env with envDir := some d } })
+       else if k = "builtin" then (parseDir v).map fun d => { c with env := { c.env with builtin := d } }
+       else if k = "use" then
+         ((splitNE v ",").mapM String.toNat?).map fun l => { c with use := l.map Char.ofNat }
+       else if k = "obs" then some { c with obs := { c.obs with fatal := v = "fatal" } }
+       else if k = "oL" then (parseListed v).map fun l => { c with obs := { c.obs with listed := l } }
+       else if k = "oC" then (parseFiles v).map fun l => { c with obs := { c.obs with calls := l } }
+       else if k = "oD" then (parseFiles v).map fun l => { c with obs := { c.obs with opened := l } }
+       else if k = "oU" then ((splitNE v ",").mapM parseUse).map fun l => { c with obs := { c.obs with uses := l } }
+       else none)
+    parseCase rest c'
+
+def showUse (c : Char) (u : OptUse) : String :=
+  toString c.toNat ++ ":" ++
+    match u with
+    | .invalid => "i"
+    | .nohandler => "n"
+    | .handled f a => "h" ++ hx f ++ "." ++ (if a then "1" else "0")
+
+/-- repaired F17-PERS as an input transformation: a module object that does not fit the personality is
+    refused before any duplicate handling, exactly like an object without a type -/
+def persFirstDir (pers : Nat) (d : Dir) : Dir :=
+  { d with files := d.files.map fun f =>
+      match f.obj with
+      | .mod ds => if ds.pers &&& pers = 0 then { f with obj := .mod { ds with type := none } } else f
+      | _ => f }
+
+def persFirstEnv (e : Env) : Env :=
+  { e with envDir := e.envDir.map (persFirstDir e.pers), builtin := persFirstDir e.pers e.builtin }
+
+def stepModel (persFirst : Bool) (line : String) : String :=
+  match parseCase (Driver.words line) emptyCase with
+  | none => "bad-op"
+  | some c =>
+    let r := loadAll (if persFirst then persFirstEnv c.env else c.env)
+    (if r.fatal then "fatal" else "ok") ++
+      " L=" ++ ",".intercalate (r.mods.map fun m => hx m.file ++ ":" ++ (if m.active then "1" else "0")) ++
+      " C=" ++ ",".intercalate (r.calls.map hx) ++
+      " O=" ++ hx r.opts ++
+      " D=" ++ ",".intercalate (r.opened.map hx) ++
+      " U=" ++ ",".intercalate (c.use.map fun ch => showUse ch (optUse r ch))
+
+def showViol : Spec.Viol → String
+  | .envDirUsed f => "envDirUsed:" ++ hx f
+  | .insecurePathLoaded => "insecurePathLoaded:-"
+  | .insecureFileOpened f => "insecureFileOpened:" ++ hx f
+  | .notLoadable f => "notLoadable:" ++ hx f
+  | .dupListed f => "dupListed:" ++ hx f
+  | .lowerDupListed f => "lowerDupListed:" ++ hx f
+  | .missing f => "missing:" ++ hx f
+  | .order f => "order:" ++ hx f
+  | .active f e => "active" ++ (if e then "1" else "0") ++ ":" ++ hx f
+  | .initRan f => "initRan:" ++ hx f
+  | .initNotRun f => "initNotRun:" ++ hx f
+  | .optAccepted c => "optAccepted:" ++ hx [c]
+  | .optRefused c => "optRefused:" ++ hx [c]
+  | .secureNotOpened f => "secureNotOpened:" ++ hx f
+
+def stepSpec (line : String) : String :=
+  match parseCase (Driver.words line) emptyCase with
+  | none => "bad-op"
+  | some c =>
+    match Spec.check c.env c.obs with
+    | [] => "ok"
+    | vs => "viol " ++ " ".intercalate (vs.map showViol)
+
+def main (args : List String) : IO UInt32 := do
+  let stdin ← IO.getStdin
+  match args with
+  | ["model"] => Driver.forLines stdin () (fun _ l => ((), stepModel false l)); return 0
+  | ["model", "persfirst"] => Driver.forLines stdin () (fun _ l => ((), stepModel true l)); return 0
+  | ["spec"] => Driver.forLines stdin () (fun _ l => ((), stepSpec l)); return 0
+  | _ => IO.eprintln "usage: pdshmodel mod model|spec"; return 2
 
 end Driver.ModDrv
